@@ -163,10 +163,13 @@ let conv_oracle (_d : memdict) (_k : engine_kind) (c : composition) (n : nat) : 
 (* ---- the C context around the editor (Model/CapiKeys.v): keyboard number and selection keys ---- *)
 let cx_kb_ref = ref (n_of_int 0)
 let cx_sel_ref = ref CapiKeys.default_sel_keys
+let cx_kbcompat_ref = ref (n_of_int 0)
+let capi_mode = ref false
 let cctx_of (e : medl) : CapiKeys.cctx =
-  { CapiKeys.cx_ed = e; cx_kb = !cx_kb_ref; cx_kbcompat = n_of_int 0; cx_sel = !cx_sel_ref }
+  { CapiKeys.cx_ed = e; cx_kb = !cx_kb_ref; cx_kbcompat = !cx_kbcompat_ref; cx_sel = !cx_sel_ref }
 let keep_ctx (c : CapiKeys.cctx) : medl =
   cx_kb_ref := c.CapiKeys.cx_kb;
+  cx_kbcompat_ref := c.CapiKeys.cx_kbcompat;
   cx_sel_ref := c.CapiKeys.cx_sel;
   c.CapiKeys.cx_ed
 
@@ -267,7 +270,17 @@ let observe oc (e : medl) =
       | Lib.Ok None, _, _ -> "cands=-"
       | _ -> "cands=PANIC"
     in
-    Printf.fprintf oc "O display=%s tiling=%s %s user=%s\n" (cps disp) (b01 tiles) cands (user_str e.sh.dict)
+    Printf.fprintf oc "O display=%s tiling=%s %s user=%s\n" (cps disp) (b01 tiles) cands (user_str e.sh.dict);
+    (* capi cases: what the query functions of the C API answer (Model/CapiKeys.v: c_flags ...) *)
+    if !capi_mode then begin
+      let c = cctx_of e in
+      let c = { c with CapiKeys.cx_kbcompat = !cx_kbcompat_ref } in
+      Printf.fprintf oc "OC flags=%s commit=%s buffer=%s cands=%s aux=%s\n"
+        (Stdlib.String.concat "," (Stdlib.List.map (fun z -> string_of_int (Convz.int_of_z z)) (CapiKeys.c_flags c)))
+        (cps (CapiKeys.c_commit_string c)) (cps disp)
+        (Stdlib.String.concat ";" (Stdlib.List.map cps (CapiKeys.c_cand_enumerate c)))
+        (cps (CapiKeys.c_aux_string c))
+    end
   with Oracle_underflow -> Printf.fprintf oc "O PANIC\n"
 
 (* C03: validate every alternative the engines returned for directly built compositions *)
@@ -414,7 +427,7 @@ let main args =
                caseno := int_of_string (Stdlib.String.trim rest);
                Printf.fprintf oc "CASE %d\n" !caseno;
                sys := []; usr := []; abbr := []; symcat := []; symtab := []; ed := None; dead := false; layout0 := 0;
-               cx_kb_ref := n_of_int 0; cx_sel_ref := CapiKeys.default_sel_keys; capi_case := false
+               cx_kb_ref := n_of_int 0; cx_sel_ref := CapiKeys.default_sel_keys; cx_kbcompat_ref := n_of_int 0; capi_case := false; capi_mode := false
            | "SYS" ->
                (match split '|' rest with
                 | [ k; t; f ] ->
@@ -436,7 +449,7 @@ let main args =
                     abbr := (c, ns_of '.' e) :: Stdlib.List.filter (fun (c', _) -> c' <> c) !abbr
                 | _ -> failwith "ABBR")
            | "LAYOUT" -> layout0 := int_of_string (Stdlib.String.trim rest)
-           | "CAPI" -> capi_case := true
+           | "CAPI" -> capi_case := true; capi_mode := true
            | "SYMSEL" ->
                (match split '=' rest with
                 | [ name; tab ] ->
